@@ -356,6 +356,8 @@ func runC15(r *rng, tier string) {
 		}
 	}
 	twoOps()
+	w.Flush()
+	runRecords(r, tier)
 }
 
 func replay(in string) {
@@ -375,6 +377,9 @@ func replay(in string) {
 	case "dec":
 		bs, _ := hex.DecodeString(c["bytes"].(string))
 		doBytes("dec.replay", bs, c["host"].(string), true)
+	case "rec":
+		replayRecord, _ = c["record"].(string)
+		runRecords(&rng{s: 1}, "quick")
 	}
 }
 
@@ -383,7 +388,12 @@ func main() {
 	tier := flag.String("tier", "quick", "")
 	prop := flag.String("prop", "C07", "")
 	rp := flag.String("replay", "", "")
+	ch := flag.String("child", "", "")
 	flag.Parse()
+	if *ch != "" {
+		child(*ch)
+		return
+	}
 	w = bufio.NewWriterSize(os.Stdout, 1<<20)
 	defer w.Flush()
 	if *rp != "" {
